@@ -7,9 +7,10 @@ EXTENDS FP, SequencesExt, Functions, FiniteSets
 
 FSeqOfInts(s) == [k \in 1..Len(s) |-> FInt(s[k])]
 
-FSum(s)       == FoldLeft(FAdd, Zero, s)
-FSumAbs(s)    == FoldLeft(LAMBDA acc, x : FAdd(acc, FAbs(x)), Zero, s)
-FMaxAbs(s)    == FoldLeft(LAMBDA acc, x : FMax(acc, FAbs(x)), Zero, s)
+\* (an empty function [k \in {} |-> ..] is not accepted as a sequence by FoldLeft: guard it)
+FSum(s)       == IF DOMAIN s = {} THEN Zero ELSE FoldLeft(FAdd, Zero, s)
+FSumAbs(s)    == IF DOMAIN s = {} THEN Zero ELSE FoldLeft(LAMBDA acc, x : FAdd(acc, FAbs(x)), Zero, s)
+FMaxAbs(s)    == IF DOMAIN s = {} THEN Zero ELSE FoldLeft(LAMBDA acc, x : FMax(acc, FAbs(x)), Zero, s)
 FMaxSeq(s)    == FoldLeft(FMax, s[1], s)
 FMinSeq(s)    == FoldLeft(FMin, s[1], s)
 FDot(s, t)    == FoldLeft(LAMBDA acc, k : FAdd(acc, FMul(s[k], t[k])), Zero, [k \in 1..Len(s) |-> k])
